@@ -79,7 +79,8 @@ ERRATA = [
     "E16 PROP chunk for a type id not in the document: 'values' is None, the undecoded rest is kept as extra key 'raw_values' (hex) and "
     "'trailing' is 0. A PROP chunk that ends right after the name has type_id None. Unconsumed bytes after a decoded value array are "
     "reported in 'trailing' and kept in extra key 'trailing_hex' (only when trailing > 0). Type ids 0x0f and 0x11 are not in the document.",
-    "E17 dump_from_model: PROP chunks with values None are omitted from 'props'; an instance without a String 'Name' PROP gets name ''; "
+    "E17 dump_from_model: PROP chunks with values None are omitted from 'props'; an instance without a String 'Name' PROP gets name '' "
+    "(a 'Name' PROP of another type is left in props under the key 'Name'); "
     "a non-null referent that is not declared by any INST chunk raises RefError unless dangling='null' is passed.",
     "E18 compression: the document does not restrict which chunks may be compressed except END; a compressed length of 0 means "
     "uncompressed, so an LZ4/ZSTD block is never empty. LZ4 = raw block format. For ZSTD the whole compressed body must be consumed "
@@ -168,6 +169,12 @@ def _zstd():
         lib.ZSTD_isError.restype = ctypes.c_uint
         lib.ZSTD_getFrameContentSize.argtypes = [ctypes.c_char_p, ctypes.c_size_t]
         lib.ZSTD_getFrameContentSize.restype = ctypes.c_ulonglong
+        try:
+            lib.ZSTD_decompressBound.argtypes = [ctypes.c_char_p, ctypes.c_size_t]
+            lib.ZSTD_decompressBound.restype = ctypes.c_ulonglong
+            lib._has_bound = True
+        except AttributeError:  # pragma: no cover - zstd < 1.4.0
+            lib._has_bound = False
         _libs["zstd"] = lib
     return lib
 
@@ -202,10 +209,18 @@ def _decompress(comp, ulen, what):
         if fcs == 0xFFFFFFFFFFFFFFFE:
             raise RefError("%s: invalid ZSTD frame header" % what)
         if fcs == 0xFFFFFFFFFFFFFFFF:
-            if ulen > (1 << 28):
+            if ulen > (1 << 24) and not lib._has_bound:
                 raise RefError("%s: ZSTD frame of unknown size with uncompressed length %d; refusing" % (what, ulen))
         elif fcs > ulen:
             raise RefError("%s: ZSTD frame content size %d exceeds uncompressed length %d" % (what, fcs, ulen))
+        if lib._has_bound:
+            bound = lib.ZSTD_decompressBound(comp, len(comp))
+            if bound == 0xFFFFFFFFFFFFFFFE:
+                raise RefError("%s: invalid ZSTD frame" % what)
+            if ulen > bound:
+                raise RefError("%s: ZSTD data expands to at most %d bytes, uncompressed length says %d" % (what, bound, ulen))
+        elif fcs != ulen and ulen > (1 << 24):
+            raise RefError("%s: ZSTD first frame holds %d bytes, uncompressed length says %d; refusing" % (what, fcs, ulen))
         dst = ctypes.create_string_buffer(max(ulen, 1))
         n = lib.ZSTD_decompress(dst, ulen, comp, len(comp))
         if lib.ZSTD_isError(n):
@@ -2017,7 +2032,7 @@ def _selftest_roundtrip(seeds=150):
                 if raw:
                     try:
                         _decode_values(tid, raw[:-1], n, {}, v)
-                        ok = name in ("String", "Bytecode") and False
+                        ok = False
                     except RefError:
                         ok = True
                     assert ok, ("truncated array accepted", name, n)
@@ -2283,7 +2298,7 @@ def _selftest_samples(directory="/repo/rbx_binary/benches/files"):
         for a, b in zip(m["chunks"], m2["chunks"]):
             assert a["body"] == b["body"] and a["name"] == b["name"] and a["len"] == b["len"], stem
         # and through model_from_dump with all freedoms
-        rng = random.Random(hash(stem) & 0xFFFF)
+        rng = random.Random(len(stem) * 1000 + cnt)
         m3 = decode(encode(model_from_dump(dump, rng)))
         assert dump_from_model(m3) == dump, stem
         cnt += 1
@@ -2297,7 +2312,7 @@ def _selftest():
     n_models, n_values = _selftest_roundtrip()
     n_neg = _selftest_negative()
     n_files = _selftest_samples()
-    print("refbin selftest OK: %d doc examples, %d value-array round trips values over %d types, %d random dump/model round trips, "
+    print("refbin selftest OK: %d doc examples, %d values in per-type array round trips over %d types, %d random dump/model round trips, "
           "%d negative/edge checks, %d Studio files, %d errata, %.1fs"
           % (n_ex, n_values, len(_TYPES), n_models, n_neg, n_files, len(ERRATA), time.time() - t0))
     return 0
